@@ -23,6 +23,9 @@ RegionOf(xq) == IF xq > 900000 THEN "edge" ELSE IF xq < 5000 THEN "low" ELSE "bu
 \* nodes to the old list) is the same grid: the prediction does not move (1e-8)
 Cap(name, region) ==
   IF name = "listing" THEN 10 ELSE
+  \* "tiny": two grids reaching 1e-7 compared at x between 1e-7 and 5e-5, the x chosen a few 1e-9 away from nodes of ONE of them
+  \* (measured on the pinned tree: 2.6e-6 .. 5.4e-6; an absolute tolerance of 1e-8 in x is 10 % of x there)
+  IF name = "tiny" THEN 100000 ELSE
   CASE region = "bulk" -> (CASE name = "c35" -> 500000 [] name = "c35b" -> 2000000 [] name = "d3" -> 2000000 [] name = "d5" -> 100000
                              [] name = "m60" -> 50000 [] name = "node" -> 5000)
     [] region = "low"  -> (CASE name = "c35" -> 2000000 [] name = "c35b" -> 20000000 [] name = "d3" -> 10000000 [] name = "d5" -> 500000
